@@ -145,6 +145,20 @@ def aniCiFromContainment (brent : α → α → (α → α) → Option α) (prob
     let sol2 := (brent bracketLo bracketHi (ciF2 z c k scaled n)).getD (lit 0)
     (lit 1 - sol1, lit 1 - sol2)
 
+/-- one interval request, as a caller states it -/
+structure CiReq (α : Type) where
+  c : α
+  k : Nat
+  scaled : Nat
+  n : Nat
+  conf : Option α
+
+/-- one thread answering a history of interval requests, oldest first.  `ani_ci_from_containment` keeps
+nothing between calls (no statics, no thread-locals in `ani_utils.rs`): every answer is the function's
+value at that request. -/
+def ciAnswers (brent : α → α → (α → α) → Option α) (probit : α → α) (h : List (CiReq α)) : List (α × α) :=
+  h.map fun q => aniCiFromContainment brent probit q.c q.k q.scaled q.n q.conf
+
 /-! ### ANI fields of `calculate_gather_stats` -/
 
 /-- `f64::max` on non-NaN arguments -/
